@@ -241,6 +241,9 @@ func Run(r *common.Run) error {
 		}
 	}
 	for n, c := range sessCorpus {
+		if r.Hist["problem"] >= 8 || len(r.Failures) >= 60 {
+			break // a broken tree costs a watchdog per case
+		}
 		r.Mark("case sess-corpus %d", n)
 		runSess(r, parseReqs(c.reqs), strings.Split(c.sched, ","), "sess-corpus")
 	}
@@ -250,6 +253,12 @@ func Run(r *common.Run) error {
 	}
 	if r.Race() {
 		r.Notes = append(r.Notes, "race-detector run: concurrent scenarios and corpora only")
+		return nil
+	}
+	if len(r.Failures) >= 12 || r.Hist["problem"] >= 8 {
+		// the session core is broken: the failing inputs are recorded, every further domain would
+		// only add watchdogs (round E self-test: a lock held across the hand-off cost > 10 minutes)
+		r.Notes = append(r.Notes, fmt.Sprintf("%d oracle failures in the corpora: the remaining domains were not run", len(r.Failures)))
 		return nil
 	}
 	// the helpers that own the response they wait for, over every reply shape
